@@ -127,6 +127,13 @@ var exprWrappers = []wrapper{
 	ew("subquery-rollup", "(SELECT 1 FROM t GROUP BY ROLLUP(", "))"),
 	ew("subquery-cube", "(SELECT 1 FROM t GROUP BY CUBE(", "))"),
 	ew("subquery-grouping-sets", "(SELECT 1 FROM t GROUP BY GROUPING SETS((", ")))"),
+	// ladders: a completed sibling construct precedes the one that nests on
+	ew("func-after-subquery-arg", "f((SELECT 1), ", ")"),
+	ew("add-after-subquery", "(SELECT 1) + (", ")"),
+	ew("and-after-exists", "EXISTS (SELECT 1) AND (", ")"),
+	ew("case-result-after-subquery-cond", "CASE WHEN EXISTS (SELECT 1) THEN ", " END"),
+	ew("tuple-after-paren", "((1), ", ")"),
+	ew("subquery-with-after-statement-cte", "(WITH r AS (DELETE FROM t WHERE a = 1), c AS (SELECT ", ") SELECT 1)"),
 	// chains: the construct repeats without embedding (postfix / left-associative operators)
 	{Name: "dcolon-chain", K: exprK, Pre: "", Post: "::int"},
 	{Name: "subscript-chain", K: exprK, Pre: "", Post: "[1]", Leaf: "a"},
@@ -241,6 +248,19 @@ var stmtWrappers = []wrapper{
 	sw("cte-alter-role-valid-until", "WITH c AS (ALTER ROLE r WITH VALID UNTIL (", ")) SELECT 1"),
 	sw("cte-describe", "WITH c AS (DESCRIBE SELECT (", ")) SELECT 1"),
 	sw("cte-explain", "WITH c AS (EXPLAIN SELECT (", ")) SELECT 1"),
+	// ladders: a sibling that is a statement of its own is completed before the nesting continues
+	swg("cte-after-statement-cte", "cte-after-delete-cte", "WITH r AS (DELETE FROM t WHERE a = 1), c AS (", ") SELECT * FROM c"),
+	swg("cte-after-statement-cte", "cte-after-update-cte", "WITH r AS (UPDATE t SET a = 1), c AS (", ") SELECT * FROM c"),
+	swg("cte-after-statement-cte", "cte-after-insert-cte", "WITH r AS (INSERT INTO t (a) VALUES (1)), c AS (", ") SELECT * FROM c"),
+	swg("cte-after-statement-cte", "cte-after-with-cte", "WITH r AS (WITH q AS (SELECT 1) SELECT * FROM q), c AS (", ") SELECT * FROM c"),
+	swg("cte-after-statement-cte", "cte-after-select-cte", "WITH r AS (SELECT (SELECT 1)), c AS (", ") SELECT * FROM c"),
+	swg("main-after-statement-cte", "main-after-delete-cte", "WITH r AS (DELETE FROM t WHERE a = 1) SELECT * FROM (", ") d"),
+	swg("main-after-statement-cte", "main-after-with-cte", "WITH r AS (WITH q AS (SELECT 1) SELECT * FROM q) SELECT * FROM (", ") d"),
+	swg("main-after-statement-cte", "main-scalar-after-insert-cte", "WITH r AS (INSERT INTO t (a) VALUES (1)) SELECT (", ")"),
+	sw("derived-after-scalar", "SELECT (SELECT 1) FROM (", ") d"),
+	sw("where-after-derived", "SELECT 1 FROM (SELECT 1) e WHERE a IN (", ")"),
+	sw("union-right-derived", "SELECT 1 UNION SELECT * FROM (", ") d"),
+	sw("union-left-derived", "SELECT * FROM (", ") d UNION SELECT 1"),
 	// the statement after the WITH list
 	sw("with-main-select", "WITH c AS (SELECT 1) SELECT (", ")"),
 	sw("with-main-insert", "WITH c AS (SELECT 1) INSERT INTO t (a) SELECT (", ")"),
